@@ -147,7 +147,7 @@ func (s *tunnelServer) createStream(ctx context.Context, streamID int64, frame *
 	s.lastSeen = streamID
 	verifEvent("srv.create.recorded", streamID, int64(len(s.streams)), 0)
 
-	if frame.MethodName[0] == '/' {
+	if len(frame.MethodName) > 0 && frame.MethodName[0] == '/' {
 		frame.MethodName = frame.MethodName[1:]
 	}
 	parts := strings.SplitN(frame.MethodName, "/", 2)
